@@ -944,6 +944,15 @@ example : FactsC06OAuthIR.oauthValidateIR ⟨b "HS256", [1], []⟩ ⟨fun _ => s
 example : FactsC06OAuthIR.oauthValidateIR ⟨b "HS256", [1], []⟩ ⟨fun _ => some (b "none"), fun _ => true, fun _ _ _ => true⟩ none
     (fun _ _ => []) [(b "Authorization", [b "Bearer x.y."])] = none := by decide
 
+/-- `Validator.reload` constructs exactly the configured components, each **fresh** by its constructor (in particular
+`NewBasicAuthValidator`: own user cache + watcher per generation — the premise of `basic_history_current_table`); `Init` and
+`Inherit` only call `reload()`, `Inherit` never mentions the previous generation (a change like seeded C06-m5 cannot be translated
+with this binding and breaks the obligation). -/
+theorem validatorReload_regenerated_from_source (hd jw sg oa ba : Bool) :
+    FactsC06ReloadIR.extractionFailed = false ∧ FactsC06ReloadIR.validatorReloadIR hd jw sg oa ba = (hd, jw, sg, oa, ba) ∧
+    FactsC06ReloadIR.validatorInitIR () = true ∧ FactsC06ReloadIR.validatorInheritIR () = true :=
+  ⟨by decide, Validator.validatorReload_regenerated_from_source hd jw sg oa ba, Validator.validatorInherit_regenerated_from_source⟩
+
 -- non-vacuity: the generated definitions compute (accepted / rejected inputs)
 example : FactsC06IR.parseCredentialsIR (b "user:pa:ss") = some (b "user", b "pa:ss") := by decide
 example : FactsC06IR.parseCredentialsIR (b "nocolon") = none := by decide
